@@ -29,7 +29,9 @@ package local
 //@   requires r != nil
 
 // chOK: a watched channel as newCh builds it.
-//@ pred chOK(c *ch) = c != nil && c.params != nil && c.eventsToClientPub != nil && c.statesSub != nil && c.eventsFromChainSub != nil && c.done != nil &&
+//@ global ErrSubChannelsPresent != nil
+
+//@ pred chOK(c *ch) = c != nil && (!c.isClosed ==> !closed(c.done)) && c.params != nil && c.eventsToClientPub != nil && c.statesSub != nil && c.eventsFromChainSub != nil && c.done != nil &&
 //@   (c.parent != nil ==> c.parent.params != nil && c.parent.archivedSubChStates != nil && c.parent.subChs != nil && c.parent.parent == nil) &&
 //@   (c.parent == nil ==> c.archivedSubChStates != nil && c.subChs != nil)
 //@ pred treeRoot(c *ch) = c.parent != nil ? c.parent : c
